@@ -981,6 +981,11 @@ public:
                     state_ = csv_parse_state::done;
                     more_ = false;
                     return;
+                case csv_parse_state::quoted_string: // input ends inside a quoted field
+                    err_handler_(csv_errc::expected_quote, *this);
+                    ec = csv_errc::expected_quote;
+                    more_ = false;
+                    return;
                 default:
                     state_ = csv_parse_state::end_record;
                     break;
@@ -1920,7 +1925,7 @@ private:
                 offset_ = offset_ + column_types_[column_index_ - offset_].rep_count;
                 if (column_index_ - offset_ + 1 < column_types_.size())
                 {
-                    if (column_index_ == offset_ || depth_ > column_types_[column_index_-offset_].level)
+                    if ((column_index_ == offset_ && depth_ > 0) || depth_ > column_types_[column_index_-offset_].level)
                     {
                         visitor.end_array(*this, ec);
                         more_ = !cursor_mode_;
